@@ -291,4 +291,88 @@ example :
     (by decide)).1
   exact ⟨h1, h2⟩
 
+/-! ## (h) after a completed Unsubscribe the listed filters deliver nothing -/
+
+/-- **C20, Unsubscribe.**  Let the oldest outstanding Unsubscribe `r` of a
+connected client (trie in step with `store`, `r`'s filters without empty or
+`$`-led levels) be acknowledged by its UNSUBACK.  Afterwards the trie holds
+exactly the entries of `store` whose filter is not listed in `r` - every
+callback registered under exactly a listed filter is removed
+(`C06_sremove_refines`, "remove all" mode), entries under other filters are
+untouched - and for every later message `p` and every callback `cb`, `cb` is
+invoked once per *unlisted* filter it is still held under that matches `p`.
+In particular a callback held only under listed filters is never invoked
+again. -/
+theorem C20_unsubscribe_stops (c : C) (store : List Sub) (r : Req) (rest : Queue) (p : Pub)
+    (hc : c.connected = true) (hti : TI c.topics store) (hq : c.unsuback = r :: rest)
+    (hid : ∀ e ∈ rest, e.id ≠ r.id) (hh : ∀ e, rest.head? = some e → terminal e.state = false)
+    (hgood : ∀ t ∈ r.topics, good t.1 = true)
+    (hgp : good p.topic = true) (hn : validName p.topic = true) (hq2 : p.qos ≤ 2) :
+    TI (step c (.peer (.unsuback r.id))).1.topics
+      (store.filter (fun e => !(r.topics.map (·.1)).contains e.filter)) ∧
+    (∀ cb, (deliveriesTo cb (onPublish (step c (.peer (.unsuback r.id))).1 p)).length =
+      ((heldBy cb store).filter (fun f => !(r.topics.map (·.1)).contains f && topicMatches f p.topic)).length) ∧
+    (∀ cb, (∀ f ∈ heldBy cb store, f ∈ r.topics.map (·.1)) →
+      deliveriesTo cb (onPublish (step c (.peer (.unsuback r.id))).1 p) = []) := by
+  rw [step_peer c hc, peer_unsuback_head c r rest hq hid hh]
+  have hti' := ti_unsubscribeDone { c with unsuback := rest }
+    { r with state := Mqtt.Generated.tUNSUBACK, codes := [] } store hgood hti
+  simp only [dropStore_eq] at hti'
+  have hcount : ∀ cb, (deliveriesTo cb (onPublish (unsubscribeDone { c with unsuback := rest }
+      { r with state := Mqtt.Generated.tUNSUBACK, codes := [] }).1 p)).length =
+      ((heldBy cb store).filter (fun f => !(r.topics.map (·.1)).contains f && topicMatches f p.topic)).length := by
+    intro cb
+    rw [(deliveries_count _ _ hti' p hgp hn hq2 cb).1,
+      heldBy_filter cb store (fun f => !(r.topics.map (·.1)).contains f), List.filter_filter]
+    congr 1
+    apply List.filter_congr
+    intro f _
+    exact Bool.and_comm _ _
+  refine ⟨hti', hcount, ?_⟩
+  intro cb hall
+  have h0 := hcount cb
+  have : (heldBy cb store).filter (fun f => !(r.topics.map (·.1)).contains f && topicMatches f p.topic) = [] := by
+    rw [List.filter_eq_nil_iff]
+    intro f hf
+    have hc1 : (r.topics.map (·.1)).contains f = true := List.contains_iff_mem.mpr (hall f hf)
+    rw [hc1]; simp
+  rw [this] at h0
+  exact List.length_eq_zero_iff.mp h0
+
+/-- callbacks 3 (`a/+`, `b`) and 4 (`a/+`); Unsubscribe `a/+`; afterwards `a/b` reaches nobody,
+`b` still reaches callback 3 -/
+def demoH : List Ev :=
+  [.connect (.connack false 0),
+   .api (.subscribe 1 [([97, 47, 43], 1), ([98], 0)] 0 3),
+   .peer (.suback 1 [1, 0]),
+   .api (.subscribe 2 [([97, 47, 43], 0)] 0 4),
+   .peer (.suback 2 [0]),
+   .peer (.publish { qos := 0, topic := [97, 47, 98], payload := [1] }),
+   .api (.unsubscribe 3 [[97, 47, 43]] 8),
+   .peer (.publish { qos := 0, topic := [97, 47, 98], payload := [2] }),
+   .peer (.unsuback 3),
+   .peer (.publish { qos := 0, topic := [97, 47, 98], payload := [3] }),
+   .peer (.publish { qos := 0, topic := [98], payload := [4] })]
+
+example : (runOuts init demoH).drop 5 =
+    [[.deliver 3 { qos := 0, topic := [97, 47, 98], payload := [1] },
+      .deliver 4 { qos := 0, topic := [97, 47, 98], payload := [1] }],
+     [.wrote (.unsubscribe 3 [[97, 47, 43]])],
+     [.deliver 3 { qos := 0, topic := [97, 47, 98], payload := [2] },
+      .deliver 4 { qos := 0, topic := [97, 47, 98], payload := [2] }],
+     [.complete 8 false],
+     [],
+     [.deliver 3 { qos := 0, topic := [98], payload := [4] }]] := by
+  decide
+
+/-- the hypotheses of `C20_unsubscribe_stops` are met (Unsubscribe of a filter on a fresh client) -/
+example :
+    let c := runState init [.connect (.connack false 0), .api (.unsubscribe 3 [[97, 47, 43], [98]] 8)]
+    ∀ cb, deliveriesTo cb (onPublish (step c (.peer (.unsuback 3))).1
+      { qos := 0, topic := [97, 47, 98], payload := [3] }) = [] := by
+  intro c cb
+  exact (C20_unsubscribe_stops c [] { id := 3, tag := 8, topics := [([97, 47, 43], 0), ([98], 0)] } []
+    { qos := 0, topic := [97, 47, 98], payload := [3] } (by decide) ti_new rfl (by simp) (by simp) (by decide)
+    (by decide) (by decide) (by decide)).2.2 cb (by simp [heldBy])
+
 end Mqtt.Properties.C20
